@@ -192,6 +192,7 @@ def link(flavour, name, objs, wrap_io=True, wrap_pt=True, libs=("-lrapidcheck",)
 # engine name -> (harness sources, wrap_io, wrap_pt, needs gen, internal headers)
 ENGINES = {
     "hist": (["vf/engines/hist.cc", "vf/vfsched.cc", "vf/vfio.cc"], True, True, True, False),
+    "crash": (["vf/engines/crash.cc", "vf/vfsched.cc", "vf/vfio.cc"], True, True, True, False),
 }
 
 
